@@ -278,6 +278,10 @@ func discharge(obls []*Oblig, workdir string, timeoutS, retryS int, useAll bool,
 				o.Status = "engine-error"
 			default:
 				o.Status = "undischarged"
+				// an ill-formed script (sort error, unknown symbol) is a verifier bug, never a verdict
+				if strings.Contains(r.output, "z3-new: (error") || strings.Contains(r.output, "z3: (error") {
+					o.Status = "engine-error"
+				}
 			}
 		}()
 	}
